@@ -889,6 +889,7 @@ static const uint8_t *unmarshal_one_def(
     const uint8_t *data,
     JanetFuncDef **out,
     int flags) {
+    MARSH_STACKCHECK;
     MARSH_EOS(st, data);
     if (*data == LB_FUNCDEF_REF) {
         data++;
@@ -1260,7 +1261,7 @@ void janet_unmarshal_bytes(JanetMarshalContext *ctx, uint8_t *dest, size_t len) 
 Janet janet_unmarshal_janet(JanetMarshalContext *ctx) {
     Janet ret;
     UnmarshalState *st = (UnmarshalState *)(ctx->u_state);
-    ctx->data = unmarshal_one(st, ctx->data, &ret, ctx->flags);
+    ctx->data = unmarshal_one(st, ctx->data, &ret, ctx->flags + 1);
     return ret;
 }
 
@@ -1297,7 +1298,7 @@ static const uint8_t *unmarshal_one_abstract(UnmarshalState *st, const uint8_t *
     const JanetAbstractType *at = janet_get_abstract_type(key);
     if (at == NULL) janet_panic("unknown abstract type");
     if (at->unmarshal) {
-        JanetMarshalContext context = {NULL, st, flags, data, at};
+        JanetMarshalContext context = {NULL, st, flags + 1, data, at};
         void *abst = at->unmarshal(&context);
         janet_assert(abst != NULL, "null pointer abstract");
         *out = janet_wrap_abstract(abst);
